@@ -12,6 +12,12 @@ ROOT = os.path.dirname(os.path.dirname(os.path.abspath(__file__)))
 def sh(*a, **k):
     return subprocess.run(a, capture_output=True, text=True, **k)
 def main():
+    # one mutest at a time: the scratch target dir (.cache/target-mut) is shared and two concurrent
+    # runs would overwrite each other's harness binaries
+    import fcntl
+    os.makedirs(os.path.join(ROOT, ".cache"), exist_ok=True)
+    lock = open(os.path.join(ROOT, ".cache", "mutest.lock"), "w")
+    fcntl.flock(lock, fcntl.LOCK_EX)
     args = sys.argv[1:]
     tier = "quick"
     if "--tier" in args:
